@@ -231,6 +231,38 @@ type c44State struct {
 	nFlush   int
 	shadowed bool // some flush happened while >=2 live endpoints claimed one name
 	renamed  bool // some live endpoint changed its interface name somewhere in the history
+	// ownerAndShadowed: some flush in the history applied a batch that touched BOTH the owner of an interface name
+	// and an endpoint shadowed on that name (only used to classify violation keys)
+	ownerAndShadowed bool
+	batchShadowed    map[types.WorkloadEndpointID]string // shadowed id -> name, at the start of the current batch
+	batchOwners      map[string]types.WorkloadEndpointID
+	batchTouched     map[types.WorkloadEndpointID]bool
+}
+
+func (st *c44State) noteTouched(i int) {
+	if len(st.m.pendingWlEpUpdates) == 0 || st.batchTouched == nil {
+		st.batchShadowed = map[types.WorkloadEndpointID]string{}
+		for id, w := range st.m.shadowedWlEndpoints {
+			st.batchShadowed[id] = w.Name
+		}
+		st.batchOwners = map[string]types.WorkloadEndpointID{}
+		for n, id := range st.m.activeWlIfaceNameToID {
+			st.batchOwners[n] = id
+		}
+		st.batchTouched = map[types.WorkloadEndpointID]bool{}
+	}
+	st.batchTouched[c44IDs[i]] = true
+}
+
+func (st *c44State) classifyBatch() {
+	for id := range st.batchTouched {
+		if name, ok := st.batchShadowed[id]; ok {
+			if owner, ok := st.batchOwners[name]; ok && st.batchTouched[owner] {
+				st.ownerAndShadowed = true
+			}
+		}
+	}
+	st.batchTouched = nil
 }
 
 func c44RenderConfig(ipvs bool) rules.Config {
@@ -308,6 +340,9 @@ func c44New(cfg c44Cfg) *c44State {
 func c44Close(st *c44State) { c44Scheds.Delete(st.m) }
 
 func (st *c44State) flush(k int) {
+	if st.batchTouched != nil {
+		st.classifyBatch()
+	}
 	st.sched.prio = c44Perm(st.cfg.nIDs, k)
 	if err := st.m.ResolveUpdateBatch(); err != nil {
 		panic(err)
@@ -405,11 +440,20 @@ func c44Apply(st *c44State, e c44Ev) {
 		if st.kindOf(e) == "rename" {
 			st.renamed = true
 		}
+		// remove + re-add under another name inside one batch coalesces into a rename as far as the manager is concerned
+		if w := st.m.activeWlEndpoints[c44IDs[e.id]]; w != nil && w.Name != e.ep.name {
+			st.renamed = true
+		}
+		if w := st.m.shadowedWlEndpoints[c44IDs[e.id]]; w != nil && w.Name != e.ep.name {
+			st.renamed = true
+		}
+		st.noteTouched(e.id)
 		ep := e.ep
 		st.live[e.id] = &ep
 		st.m.OnUpdate(&proto.WorkloadEndpointUpdate{Id: c44ProtoID(e.id), Endpoint: c44Proto(e.id, &ep, st.cfg.pol)})
 	case "rm":
 		st.batch = append(st.batch, st.kindOf(e))
+		st.noteTouched(e.id)
 		st.live[e.id] = nil
 		st.m.OnUpdate(&proto.WorkloadEndpointRemove{Id: c44ProtoID(e.id)})
 	case "flush":
@@ -599,6 +643,8 @@ func c44Check(st *c44State, hist []c44Ev) []hbfs.Fail {
 		tag := "no-rename-in-history"
 		if st.renamed {
 			tag = "rename-in-history"
+		} else if st.ownerAndShadowed {
+			tag = "owner-and-shadowed-endpoint-in-one-batch"
 		}
 		fails = append(fails, hbfs.Fail{Key: "C44:" + tag + ":" + class + ":" + trig, Msg: msg + " [env: " + st.envString() + "]"})
 	}
@@ -762,7 +808,7 @@ func c44Key(st *c44State) string {
 	fmt.Fprintf(&sb, "pg{%s} ", strings.Join(parts, ","))
 	rec := m.wlIfaceNamesToReconfigure.Slice()
 	sort.Strings(rec)
-	fmt.Fprintf(&sb, "renamed=%v reconf%v flags=%v/%v spoof=%d ", st.renamed, rec, m.needToCheckDispatchChains, m.needToCheckEndpointMarkChains, len(m.sourceSpoofingConfig))
+	fmt.Fprintf(&sb, "renamed=%v oas=%v reconf%v flags=%v/%v spoof=%d ", st.renamed, st.ownerAndShadowed, rec, m.needToCheckDispatchChains, m.needToCheckEndpointMarkChains, len(m.sourceSpoofingConfig))
 	if st.cfg.batched {
 		// the trigger class is part of the violation key, so keep distinct batches apart
 		fmt.Fprintf(&sb, "batch=%s", st.trigger())
